@@ -132,6 +132,13 @@ def success_edges_union(body, events, kind="ok"):
     return edges, hows, missing
 
 
+def failure_edges_union(body, events, kind="ok"):
+    edges = set()
+    for e in events:
+        edges |= flow.failure_edges(body, e, kind)[0]
+    return edges
+
+
 def witness(body, target, removed_edges=(), removed_nodes=()):
     p = body.find_path(target, removed_edges=removed_edges, removed_nodes=removed_nodes)
     if p is None:
@@ -417,6 +424,166 @@ def local_bool_edges(body, start_locals, polarity):
                     edges.add((bb, arms[0]))
                 elif 1 in arms:
                     edges.add((bb, t["otherwise"]))
+    return edges
+
+
+def _bool_defs(body, local, neg=False, seen=None):
+    """Where the bool in `local` gets its value: list of (bb, 'const', value) | (bb, 'call', event, negated) |
+    (bb, 'unknown', None), through copies and `!`."""
+    seen = seen if seen is not None else set()
+    if (local, neg) in seen:
+        return []
+    seen.add((local, neg))
+    out = []
+    for (bb, idx, kind, payload) in body.defs.get(local, []):
+        if bb not in body.live:
+            continue
+        if kind == "assign":
+            if payload["pl"]["p"]:
+                out.append((bb, "unknown", None))
+                continue
+            rv = payload["rv"]
+            if rv["rk"] == "use":
+                op = rv["ops"][0]
+                if op.get("k") == "const":
+                    cv = flow.const_value(op)
+                    if cv[0] == "int" and str(cv[1]) in ("0", "1"):
+                        out.append((bb, "const", (str(cv[1]) == "1") != neg))
+                    else:
+                        out.append((bb, "unknown", None))
+                elif not op["pl"]["p"]:
+                    out.extend(_bool_defs(body, op["pl"]["l"], neg, seen))
+                else:
+                    out.append((bb, "unknown", None))
+            elif rv["rk"] == "unop" and rv["op"] == "Not" and rv["ops"][0].get("k") != "const" and not rv["ops"][0]["pl"]["p"]:
+                out.extend(_bool_defs(body, rv["ops"][0]["pl"]["l"], not neg, seen))
+            else:
+                out.append((bb, "unknown", None))
+        elif kind == "call":
+            ev = [e for e in body.events if e.bb == bb]
+            out.append((bb, "call", ev[0] if ev else None, neg))
+        else:
+            out.append((bb, "unknown", None))
+    if not body.defs.get(local):
+        out.append((0, "unknown", None))
+    return out
+
+
+def helper_implies(crate, hb, fn, polarity, value):
+    """In the bool-returning body `hb`: does returning `value` imply that a call of `fn` in it returned
+    `polarity`? (Every way _0 can become `value` either IS fn's result with the right sense, or lies behind
+    an edge on which fn returned `polarity`.)"""
+    inner = [e for e in hb.events if e.bb in hb.live and e.callee != POLL and (e.resolved == fn or (e.resolved is None and e.callee == fn))]
+    if not inner:
+        return False
+    edges = set()
+    for e in inner:
+        edges |= bool_switch_edges(hb, e, polarity)
+    for d in _bool_defs(hb, 0):
+        bb, kind = d[0], d[1]
+        if kind == "const":
+            if d[2] != value:
+                continue
+        elif kind == "call" and d[2] is not None and d[2] in inner:
+            # _0 = fn(..) or !fn(..): equals `value` exactly when fn == value ^ negated
+            if (value != d[3]) == polarity:
+                continue
+        if not edges or not hb.must_pass_edges(edges, bb):
+            return False
+    return True
+
+
+class PredSite:
+    """An occurrence, in `body`, of the bool test `fn`: called directly, or through a private bool helper whose
+    result decides it. `edges[polarity]` are the edges of `body` on which fn is known to have returned polarity."""
+
+    def __init__(self, crate, body, event, inner_body, inner_event, edges):
+        self.crate, self.body, self.event, self.inner_body, self.inner_event, self.edges = crate, body, event, inner_body, inner_event, edges
+
+    def site(self):
+        return self.event.site()
+
+    def arg_origins(self, i, **kw):
+        """Origins of fn's i-th argument, in terms of `body` (helper parameters are followed to the call)."""
+        o = flow.origins_x(self.crate, self.inner_body, self.inner_event.args[i], **kw)
+        if self.inner_body is self.body:
+            return o
+        hb = self.inner_body
+        names = {hb.local_names.get(l, l): l for l in range(1, hb.arg_count + 1)}
+        out = set()
+        for x in o:
+            if x[0] == "param" and x[1] in names and names[x[1]] - 1 < len(self.event.args):
+                for y in flow.origins_x(self.crate, self.body, self.event.args[names[x[1]] - 1], **kw):
+                    if y[0] in ("param", "upvar"):
+                        out.add((y[0], y[1], tuple(y[2]) + tuple(x[2])))
+                    elif y[0] == "call":
+                        out.add(("call", y[1], y[2], tuple(y[3]) + tuple(x[2])))
+                    else:
+                        out.add(y)
+            else:
+                out.add(x)
+        return out
+
+
+def predicate_sites(crate, body, fn):
+    out = []
+    for e in body.events:
+        if e.bb not in body.live or e.callee == POLL or e.dest is None:
+            continue
+        tgt = e.resolved or (e.callee if e.resolved is None else None) or ""
+        if tgt == fn:
+            out.append(PredSite(crate, body, e, body, e, {True: bool_switch_edges(body, e, True), False: bool_switch_edges(body, e, False)}))
+            continue
+        hb = crate.bodies.get(tgt)
+        if hb is None or hb is body or (hb.ret or "") != "bool" or hb.kind not in ("fn", "assoc_fn"):
+            continue
+        inner = [x for x in hb.events if x.bb in hb.live and x.callee != POLL and (x.resolved == fn or (x.resolved is None and x.callee == fn))]
+        if not inner:
+            continue
+        edges = {True: set(), False: set()}
+        for pol in (True, False):
+            for val in (True, False):
+                if helper_implies(crate, hb, fn, pol, val):
+                    edges[pol] |= bool_switch_edges(body, e, val)
+        out.append(PredSite(crate, body, e, hb, inner[0], edges))
+    return out
+
+
+_CMP_EVAL = {"Eq": lambda a, b: a == b, "Ne": lambda a, b: a != b, "Lt": lambda a, b: a < b, "Le": lambda a, b: a <= b,
+             "Gt": lambda a, b: a > b, "Ge": lambda a, b: a >= b}
+
+
+def nonempty_edges(body, is_target):
+    """Edges on which the collection selected by `is_target(operand)` is known to hold at least one element:
+    the false edge of `x.is_empty()`, and the edge of a comparison of `x.len()` with a constant that the value
+    0 does not take (`len == 0` false, `len != 0` true, `len > 0`, `len >= 1`, `0 < len`, `len < 1` false ...)."""
+    edges = set()
+    lens = set()
+    for e in body.events:
+        if e.bb not in body.live or not e.args or e.dest is None or e.dest["p"]:
+            continue
+        if e.name.endswith("::is_empty") and is_target(e.args[0]):
+            edges |= bool_switch_edges(body, e, False)
+        elif e.name.endswith("::len") and is_target(e.args[0]):
+            lens |= {l for l in flow.result_carriers(body, e.dest["l"])}
+    for bb, j, s in body.all_assigns():
+        rv = s["rv"]
+        if rv["rk"] != "binop" or rv["op"] not in _CMP_EVAL or s["pl"]["p"]:
+            continue
+        a, b = rv["ops"]
+        la, lb = flow.operand_local(a), flow.operand_local(b)
+        ca = flow.const_value(a) if a.get("k") == "const" else None
+        cb = flow.const_value(b) if b.get("k") == "const" else None
+        try:
+            if la in lens and not a["pl"]["p"] and cb and cb[0] == "int":
+                at_zero = _CMP_EVAL[rv["op"]](0, int(cb[1]))
+            elif lb in lens and not b["pl"]["p"] and ca and ca[0] == "int":
+                at_zero = _CMP_EVAL[rv["op"]](int(ca[1]), 0)
+            else:
+                continue
+        except (TypeError, ValueError):
+            continue
+        edges |= local_bool_edges(body, {s["pl"]["l"]}, not at_zero)
     return edges
 
 
